@@ -31,6 +31,8 @@ type Profile struct {
 	Level           string // exploration (default) or fault_enumeration
 	Chunk           int    // runs per worker invocation (default 50)
 	Exhaustive      bool
+	// Multi: one index = several simulated runs (C11's enumeration)
+	Multi func(t *testing.T, p *Profile, seed uint64, tier string, idx int, replayDir string) *RunResult
 }
 
 var profiles = map[string]*Profile{}
